@@ -217,6 +217,12 @@ func (server *Server) ServeRequest(ctx *Context, recving *sync.Mutex, wg *sync.W
 		server.ctxPool.Put(ctx)
 		return err
 	}
+	if ctx.upgrade.Heartbeat == heartbeat || ctx.upgrade.Stream == openStream || ctx.upgrade.Stream == closeStream {
+		// Heartbeats and stream control messages carry neither arguments nor a
+		// reply, whatever the peer's flags say.
+		ctx.upgrade.NoRequest = noRequest
+		ctx.upgrade.NoResponse = noResponse
+	}
 	if ctx.upgrade.Heartbeat == heartbeat {
 		server.sendResponse(ctx)
 		return nil
@@ -323,6 +329,12 @@ func (server *Server) readRequestBody(ctx *Context) (err error) {
 		}
 	} else if ctx.upgrade.Stream == streaming {
 	} else {
+		if ctx.upgrade.NoRequest == noRequest || ctx.upgrade.NoResponse == noResponse {
+			// A plain call always has arguments and a reply.
+			err = errors.New("unsupported upgrade flags")
+			codec.ReadRequestBody(nil, nil)
+			return
+		}
 		if ctx.upgrade.NoRequest != noRequest {
 			ctx.f = server.Funcs.GetFunc(ctx.ServiceMethod)
 			if ctx.f == nil {
